@@ -549,6 +549,7 @@ func Gen(r *rand.Rand, o GenOpts) []string {
 		}
 		if it.ev < 0 {
 			push(it.reset)
+			push([]string{"W"})
 			ne, _ := strconv.Atoi(it.reset[1])
 			cur = &seen{epoch: uint32(ne), own: map[uint32][]int{}}
 			for _, v := range BuildVals(parseVW(it.reset[2:])).SortedIDs() {
@@ -677,9 +678,37 @@ func Gen(r *rand.Rand, o GenOpts) []string {
 					pushBoth2(&main, &alt, g, o.Mix != "C09" || altStarted)
 				}
 			}
+			if o.Mix == "C08" {
+				// rejected / ghost events and speculative builds (kept in the never-restarted run too),
+				// often followed directly by a restart
+				var inj []string
+				switch r.Intn(8) {
+				case 0:
+					if f, ok := wrongFrame(e); ok {
+						inj = []string{"X", fmt.Sprint(e.def.N), fmt.Sprint(f)}
+					}
+				case 1:
+					inj = ghost()
+				case 2:
+					inj = arbBuild("b")
+				}
+				if inj != nil {
+					pushBoth(inj)
+					if r.Intn(2) == 0 {
+						main = append(main, []string{"R"})
+					}
+				}
+			}
+		}
+		if o.Mix == "C07" && r.Intn(10) == 0 {
+			pushBoth([]string{"R"}) // a restart after injected operations, in both runs
+			builds = 0
 		}
 		if !skipP {
 			push([]string{"P", fmt.Sprint(e.def.N)})
+			if e.sealed || r.Intn(25) == 0 {
+				push([]string{"W"})
+			}
 		}
 		cur.own[e.def.Creator] = append(cur.own[e.def.Creator], e.def.N)
 		cur.all = append(cur.all, e.def.N)
@@ -696,7 +725,7 @@ func Gen(r *rand.Rand, o GenOpts) []string {
 		main = nil
 		for _, g := range alt {
 			main = append(main, g)
-			if g[0] == "P" {
+			if g[0] == "P" || g[0] == "X" || g[0] == "Y" || g[0] == "b" {
 				main = append(main, []string{"R"})
 			}
 		}
@@ -725,7 +754,14 @@ func idOf(d *EvDef) hash.Event {
 // shuffleScript returns a random parents-first order of each epoch segment of the script.
 func shuffleScript(r *rand.Rand, script []item, evs []*genEv) []item {
 	var out []item
+	// adversarial variant: the events of one validator are delivered as late as parents-first allows
+	// (decisions pile up and are taken in one call when they finally arrive)
+	delayMode := r.Intn(4) == 0
 	flush := func(seg []item) {
+		delayed := uint32(0)
+		if delayMode && len(seg) > 0 {
+			delayed = evs[seg[r.Intn(len(seg))].ev].def.Creator
+		}
 		done := map[int]bool{}
 		inSeg := map[int]bool{}
 		for _, it := range seg {
@@ -741,11 +777,28 @@ func shuffleScript(r *rand.Rand, script []item, evs []*genEv) []item {
 						ok = false
 					}
 				}
+				if ok && delayed != 0 && evs[it.ev].def.Creator == delayed {
+					ok = false // only when nothing else is ready (second pass below)
+				}
 				if ok {
 					ready = append(ready, k)
 				}
-				if len(ready) >= 6 { // keep the shuffle local
+				if len(ready) >= 6 && delayed == 0 { // keep the shuffle local
 					break
+				}
+			}
+			if len(ready) == 0 { // only delayed events are ready
+				for k, it := range rest {
+					ok := true
+					for _, p := range evs[it.ev].def.Parents {
+						if inSeg[p] && !done[p] {
+							ok = false
+						}
+					}
+					if ok {
+						ready = append(ready, k)
+						break
+					}
 				}
 			}
 			k := ready[r.Intn(len(ready))]
